@@ -68,7 +68,7 @@ PROPS["C16"] = {
 
 PROPS["C07"] = {
     "witness_always": ["stdlib_expansion"],
-    "witness_bound": {"stdlib_expansion": "1232 generated conditional trees of depth <= 3 (\\iftrue/\\iffalse/\\ifnum/\\ifodd incl. negative operands/\\ifcase -1..3, \\let aliases, unbalanced braces in skipped text) against a tree evaluator; every token string of length <= 6 over {\\expandafter, three macros, a letter, a macro with a DELIMITED parameter (which grabs tokens unexpanded, so the moment of each expansion shows in the output)} (42856 strings without runaway arguments) expanded by BOTH \\expandafter implementations against a transcription of TeX's expand-once rule"},
+    "witness_bound": {"stdlib_expansion": "2202 generated conditional trees of depth <= 3 (\\iftrue/\\iffalse/\\ifnum/\\ifodd incl. negative operands/\\ifcase -1..3, \\let aliases, unbalanced braces in skipped text, blanks and relations produced by macro expansion) against a tree evaluator; every token string of length <= 6 over {\\expandafter, three macros, a letter, a macro with a DELIMITED parameter (which grabs tokens unexpanded, so the moment of each expansion shows in the output)} (42856 strings without runaway arguments) expanded by BOTH \\expandafter implementations against a transcription of TeX's expand-once rule"},
     "level": "proof",
     "verus": ["stdlib_cond", "stdlib_expandafter", "texlang_parse_int"],
     "kani": [],
@@ -88,7 +88,7 @@ PROPS["C04"] = {
     "kani": [],
     "witness_always": ["kp_search"],
     "witness_fns": {"kp_search": ["break_line_single_attempt", "demerits", "badness", "num_nodes_for_next_class"]},
-    "witness_bound": {"kp_search": "break_line_single_attempt vs exhaustive search over ALL sets of legal breakpoints under an independent transcription of TeX 108/851-855/859/837: every paragraph of <= 4 boxes (3 widths) joined by 9 separator shapes (finite glue, penalty +-50 / 10000 / -10000 before glue, explicit kern before glue, none, font kern after glue, penalty -20000, fill / filll glue, four discretionary shapes: hyphen, explicit hyphen + glue, with post-break box, replacing the next box) x 4 line-width sequences x tolerance {200, 10000, 20000} x 2 parameter sets (about 10^6 paragraphs in the quick tier, the 4-box space thinned; thorough: all of it and a thinned 5-box space); hyphen demerits included; \\looseness +1 / -1 on a sixth of the paragraphs (TeX 875: optimum's line count + looseness when feasible, else the pass fails); no math or emergency pass"},
+    "witness_bound": {"kp_search": "break_line_single_attempt vs exhaustive search over ALL sets of legal breakpoints under an independent transcription of TeX 108/851-855/859/837: every paragraph of <= 4 boxes (3 widths) joined by 18 separators (finite glue, penalty +-50 / 10000 / -10000 before glue, explicit kern before glue, none, font kern after glue, penalty -20000, fill / filll glue, five discretionary shapes: hyphen, explicit hyphen + glue, with post-break box, replacing the next box, empty pre-break with a post-break box) x 4 line-width sequences x tolerance {200, 10000, 20000} x 2 parameter sets (the second with \\hyphenpenalty 120 / \\exhyphenpenalty 30, adj_demerits 3000, line_penalty 50) (about 1.9 x 10^6 paragraphs in the quick tier, the 4-box space thinned; thorough: all of it and a thinned 5-box space); hyphen demerits included; \\looseness +1 (with \\hyphenpenalty 10000) / -1 on a sixth of the paragraphs (TeX 875: optimum's line count + looseness when feasible, the cheapest such sequence; else the pass fails); that sixth also with a FINITE \\parfillskip (last line with its own fitness class); no math or emergency pass"},
     "unverified_callers": [
         "LineBreaker::break_line_single_attempt (480-line active-node search): feasibility iff and demerit-optimality are NOT proved; they are covered only by the bounded driver kp_search (labelled bounded, not counted)",
         "the two call sites of badness (shortfall > 0 / -shortfall) and of demerits (penalty within +-10000) sit inside that function",
